@@ -35,6 +35,32 @@ def run(ctx, chk):
     from props.c05 import check_no_silent_drop
     check_no_silent_drop(chk, "C14.no-silent-drop", prog, eff)
 
+    # what is decoded does not depend on WHERE the item sits: every path of every argument loader (e.g. a fast path
+    # taken only for aligned addresses) assembles the same big-endian value
+    chk.rule("C14.loader", "every path of each integer loader the decoder uses denotes the big-endian value of exactly the bytes it reads, "
+                           "so an item decodes the same at every offset of a sequence (shared with C10.loader)")
+    import tables as _t14
+    by_byte14, _pre14, _outs14 = _t14.dispatch(prog, eff)
+    loaders14 = set()
+    for b_ in range(256):
+        for o_ in by_byte14[b_]:
+            for cb_ in o_["callbacks"]:
+                for d_ in cb_["desc"]:
+                    if d_[0] in ("loader", "loader-bias"):
+                        loaders14.add(d_[1])
+    nl14 = 0
+    for l_ in sorted(loaders14):
+        lf_ = prog.fn(l_)
+        if not lf_.ret_type.startswith("i") or l_ == "_cbor_load_uint8":
+            continue
+        n_ = _t14.read_extent(prog, l_, 0)
+        want_ = {j: 8 * (n_ - 1 - j) for j in range(n_)}
+        for pi_, bm_ in enumerate(_t14.loader_bytemaps(prog, eff, l_)):
+            nl14 += 1
+            chk.ob("C14.loader", "%s path %d" % (l_, pi_), bm_ == want_, "%s:%d" % (lf_.file, lf_.line), fn=l_, key="loader:%s:%d" % (l_, pi_),
+                   detail="" if bm_ == want_ else "byte map %s, big-endian is %s" % (bm_, want_))
+    chk.floor("C14.loader", "loader paths", nl14, 3)
+
     f = prog.fn("cbor_load")
     where = "%s:%d" % (f.file, f.line)
     src_i, size_i, res_i = f.param_index("source"), f.param_index("source_size"), f.param_index("result")
